@@ -1409,6 +1409,8 @@ class Stage:
 
     def clone(self, parent, **kwargs):
         assert self._is_original
+        if self._stages:
+            raise Exception("A stage that has sub-stages of its own cannot be used as a template.")
         ret = Stage(parent, **kwargs)
         from copy import copy, deepcopy
 
@@ -1437,7 +1439,10 @@ class Stage:
         ret.parameters = deepcopy(self.parameters)
         ret.variables = deepcopy(self.variables)
 
-        ret._offsets = deepcopy(self._offsets)
+        # The operands of next/prev/offset may contain placeholders (and t, T, t0) of the template too
+        ret._offsets = HashDict()
+        for offset_symbol, (offset_expr, offset_value) in self._offsets.items():
+            ret._offsets[offset_symbol] = (substitute([offset_expr], subst_from, subst_to)[0], offset_value)
         ret._param_vals = copy(self._param_vals)
         ret._state_der = copy(self._state_der)
         ret._scale_der = copy(self._scale_der)
@@ -1470,9 +1475,10 @@ class Stage:
         ret._method.t0 = None
         ret._var_original = self._var_original
 
-        ret._meta = self._meta
-        ret._scale = self._scale
-        ret._catalog = self._catalog
+        # Own tables: a symbol declared on the clone later on must not become known to the template and its siblings
+        ret._meta = copy(self._meta)
+        ret._scale = copy(self._scale)
+        ret._catalog = copy(self._catalog)
 
         ret._var_is_transcribed = False
         ret._T_scale = self._T_scale
